@@ -462,6 +462,30 @@ class Evaluator:
         ret, final, returns = self._activate(fi, cls_ctx, st, self_term, callsite=None)
         return Result(func_fq, ret, returns, self.events, final, self_term, params)
 
+    def run_module(self, modname: str) -> Result:
+        """Walk the top-level statements of a module (used for registries built by module-level loops)."""
+        mod = self.prog.modules.get(modname)
+        if mod is None:
+            raise AnalysisError(f"anchor vanished: module {modname}")
+        fi = FunctionInfo(f"{modname}:<module>", modname, "<module>", "<module>", mod.tree, None)
+        self.events = []
+        self._seq = 0
+        self._effects = ()
+        st = State({}, {}, ())
+        body = [s for s in mod.tree.body if not isinstance(s, (ast.FunctionDef, ast.AsyncFunctionDef, ast.ClassDef))]
+        self._frames.append((fi, None, None, None))
+        self._active.append(fi.fq)
+        try:
+            exits = self._block(body, st)
+        finally:
+            self._active.pop()
+            self._frames.pop()
+        final = None
+        for ex in exits:
+            if ex.kind == "fall":
+                final = ex.state
+        return Result(fi.fq, NONE, [], self.events, final, None, {})
+
     def eval_src(self, src: str, bindings: dict, module: str | None = None, cls_ctx=None, self_term=None,
                  heap=None) -> T:
         """Evaluate a Python *expression* given as text in an environment of terms (used for specs)."""
